@@ -884,4 +884,364 @@ theorem roundtrip_store {g : Geom} (hg : Admissible g) (ks : List Nat) (hks : ks
     omega
 
 
+/-! ## any stack: sub-volumes relative to the full volume -/
+
+theorem listMaxInt_nonneg (l : List Int) : 0 ≤ listMaxInt 0 l := listMaxInt_ge 0 l 0 (by simp)
+
+theorem sliceSpec_default (n : Int) (hn : 1 ≤ n) (ai : Bool) : sliceSpec none none n ai = some (0, n) := by
+  unfold sliceSpec; simp; omega
+
+theorem mem_framePositions (vps : List Int) (s e : Int) (i : Nat) (v : Int) :
+    (i, v) ∈ framePositions vps s e ↔ ∃ vp, vps[i]? = some vp ∧ s ≤ vp ∧ vp < e ∧ v = vp - s := by
+  unfold framePositions
+  rw [List.mem_filterMap]
+  constructor
+  · rintro ⟨⟨vp, j⟩, hm, hf⟩
+    have := List.mem_zipIdx hm
+    simp only [Nat.zero_le, Nat.zero_add, Nat.sub_zero, true_and] at this
+    simp only at hf
+    split at hf
+    · rename_i hc
+      simp only [Option.some.injEq, Prod.mk.injEq] at hf
+      obtain ⟨rfl, rfl⟩ := hf
+      simp only [Bool.and_eq_true, decide_eq_true_eq] at hc
+      exact ⟨vp, by rw [List.getElem?_eq_getElem this.1]; exact congrArg some this.2.symm, hc.1, hc.2, rfl⟩
+    · cases hf
+  · rintro ⟨vp, hget, h1, h2, rfl⟩
+    have hi : i < vps.length := by
+      by_contra hlt
+      rw [List.getElem?_eq_none (by omega)] at hget; cases hget
+    have hv : vps[i] = vp := by
+      rw [List.getElem?_eq_getElem hi] at hget; exact Option.some.inj hget
+    refine ⟨(vp, i), ?_, ?_⟩
+    · rw [← hv]; exact List.mem_zipIdx_iff_getElem?.mpr (by simp [hi]) 
+    · simp [h1, h2]
+
+
+/-- **Any stack, any slice request**: whatever `_get_stacked_volume_geometry` returns for a request is the
+default (full) geometry cut to the Python-slice meaning `[s, e)` of the request: same columns, translation at
+the position of slice `s`, frames of slots `s..e-1` moved down by `s`. -/
+theorem stackedGeometry_sub (st : Stack) (rows cols : Int) (am : Bool) (ss se : Option Int) (ai : Bool) (sg : StackGeom)
+    (h : stackedGeometry st rows cols am ss se ai = .ok sg) :
+    ∃ full s e, stackedGeometry st rows cols am none none false = .ok full ∧
+      sliceSpec ss se full.n ai = some (s, e) ∧ sg.aff = full.aff.shift s 0 0 ∧ sg.n = e - s ∧
+      sg.rows = rows ∧ sg.cols = cols ∧ full.rows = rows ∧ full.cols = cols ∧
+      (∀ i v, (i, v) ∈ sg.frames ↔ ((i, v + s) ∈ full.frames ∧ 0 ≤ v ∧ v < e - s)) := by
+  unfold stackedGeometry at h ⊢
+  cases hvp : volumePositions st.pos st.rowCos st.colCos st.hint am with
+  | error k => rw [hvp] at h; cases h
+  | ok r =>
+    rw [hvp] at h
+    cases r with
+    | none => cases h
+    | some r =>
+      obtain ⟨spacing, vps⟩ := r
+      simp only at h ⊢
+      set N := listMaxInt 0 vps + 1 with hN
+      have hN1 : 1 ≤ N := by have := listMaxInt_nonneg vps; omega
+      cases hsl : stdSliceIndices ss se N ai with
+      | error k => rw [hsl] at h; cases h
+      | ok r2 =>
+        obtain ⟨s, e⟩ := r2
+        rw [hsl] at h
+        simp only at h
+        have hspec := (stdSlice_ok_iff ss se N ai (s, e)).mp hsl
+        have hrange := sliceSpec_range hspec
+        rw [(stdSlice_ok_iff none none N false (0, N)).mpr (sliceSpec_default N hN1 false)]
+        simp only
+        cases hio : indexOf? 0 vps with
+        | none => rw [hio] at h; cases h
+        | some oi =>
+          rw [hio] at h
+          simp only at h ⊢
+          cases hpo : st.pos[oi]? with
+          | none => rw [hpo] at h; cases h
+          | some origin =>
+            rw [hpo] at h
+            simp only at h ⊢
+            cases hfa : fromAttributes origin st.rowCos st.colCos st.psRow st.psCol spacing with
+            | error k => rw [hfa] at h; cases h
+            | ok a =>
+              rw [hfa] at h
+              simp only at h ⊢
+              rw [getitemAxis_inrange s e N hrange.1 hrange.2.1 hrange.2.2] at h
+              rw [getitemAxis_inrange 0 N N (le_refl 0) (by omega) (le_refl N)]
+              simp only [Except.ok.injEq] at h
+              subst h
+              refine ⟨_, s, e, rfl, ?_, ?_, rfl, rfl, rfl, rfl, rfl, ?_⟩
+              · simpa using hspec
+              · simp only [aff_shift_zero]
+              · intro i v
+                simp only [mem_framePositions]
+                constructor
+                · rintro ⟨vp, hg, h1, h2, rfl⟩
+                  exact ⟨⟨vp, hg, by omega, by omega, by ring⟩, by omega, by omega⟩
+                · rintro ⟨⟨vp, hg, h1, h2, h3⟩, h4, h5⟩
+                  exact ⟨vp, hg, by omega, by omega, by omega⟩
+
+
+theorem getitemAxis_ok {a b n f sz : Int} (h0 : 0 ≤ a) (h1 : a < n) (h2 : 0 ≤ b) (h3 : b ≤ n)
+    (h : getitemAxis (some a) (some b) n = .ok (f, sz)) : a < b ∧ a = f ∧ b - a = sz := by
+  unfold getitemAxis imax imin at h
+  grind
+
+/-- **Any stack, any sub-volume request** (stacked branch of `get_volume`): an accepted request returns the
+default (full) volume cut to the Python-slice meaning of the request on each axis; the affine is the full one
+translated to the position of the first voxel of the block. -/
+theorem getVolumeStack_sub (st : Stack) (rows cols : Int) (am : Bool) (rq : Request) (out : VolOut)
+    (h : getVolumeStack st rows cols am rq = .ok out) :
+    ∃ full s0 e0 s1 e1 s2 e2, stackedGeometry st rows cols am none none false = .ok full ∧
+      sliceSpec rq.sliceStart rq.sliceEnd full.n rq.asIdx = some (s0, e0) ∧
+      sliceSpec rq.rowStart rq.rowEnd rows rq.asIdx = some (s1, e1) ∧
+      sliceSpec rq.colStart rq.colEnd cols rq.asIdx = some (s2, e2) ∧
+      out.aff = full.aff.shift s0 s1 s2 ∧ out.n = e0 - s0 ∧ out.rows = e1 - s1 ∧ out.cols = e2 - s2 ∧
+      out.rowFirst = s1 ∧ out.colFirst = s2 ∧
+      (∀ i v, (i, v) ∈ out.frames ↔ ((i, v + s0) ∈ full.frames ∧ 0 ≤ v ∧ v < e0 - s0)) := by
+  unfold getVolumeStack at h
+  cases hT3 : stdRowColIndices rq.rowStart rq.rowEnd rq.colStart rq.colEnd rows cols rq.asIdx true with
+  | error k => rw [hT3] at h; cases h
+  | ok r =>
+    obtain ⟨a, b, c, d⟩ := r
+    rw [hT3] at h
+    simp only at h
+    have hr := stdRowCol_range_idx hT3
+    cases hsg : stackedGeometry st rows cols am rq.sliceStart rq.sliceEnd rq.asIdx with
+    | error k => rw [hsg] at h; cases h
+    | ok sg =>
+      rw [hsg] at h
+      simp only at h
+      obtain ⟨full, s0, e0, hfull, hs0, haff, hn, _, _, _, _, hfr⟩ := stackedGeometry_sub st rows cols am _ _ _ sg hsg
+      cases hg1 : getitemAxis (some a) (some b) rows with
+      | error k => rw [hg1] at h; cases h
+      | ok r1 =>
+        obtain ⟨f1, z1⟩ := r1
+        cases hg2 : getitemAxis (some c) (some d) cols with
+        | error k => rw [hg1, hg2] at h; cases h
+        | ok r2 =>
+          obtain ⟨f2, z2⟩ := r2
+          rw [hg1, hg2] at h
+          simp only [Except.ok.injEq] at h
+          subst h
+          obtain ⟨hab, rfl, rfl⟩ := getitemAxis_ok hr.1 hr.2.1 hr.2.2.1 hr.2.2.2.1 hg1
+          obtain ⟨hcd, rfl, rfl⟩ := getitemAxis_ok hr.2.2.2.2.1 hr.2.2.2.2.2.1 hr.2.2.2.2.2.2.1 hr.2.2.2.2.2.2.2 hg2
+          obtain ⟨hrow, hcol⟩ := (stdRowCol_idx_spec _ _ _ _ rows cols rq.asIdx a b c d).mp ⟨hT3, hab, hcd⟩
+          refine ⟨full, s0, e0, a, b, c, d, hfull, hs0, hrow, hcol, ?_, hn, rfl, rfl, rfl, rfl, hfr⟩
+          simp only [haff, aff_shift_shift]
+          simp
+
+/-- a refused axis request is refused by `get_volume` (stacked branch) whenever the image is a stack at all -/
+theorem getVolumeStack_refuses (st : Stack) (rows cols : Int) (am : Bool) (rq : Request) (full : StackGeom)
+    (hfull : stackedGeometry st rows cols am none none false = .ok full)
+    (hbad : sliceSpec rq.sliceStart rq.sliceEnd full.n rq.asIdx = none ∨
+      sliceSpec rq.rowStart rq.rowEnd rows rq.asIdx = none ∨ sliceSpec rq.colStart rq.colEnd cols rq.asIdx = none) :
+    ∃ k, getVolumeStack st rows cols am rq = .error k := by
+  cases hgv : getVolumeStack st rows cols am rq with
+  | error k => exact ⟨k, rfl⟩
+  | ok out =>
+    obtain ⟨full', s0, e0, s1, e1, s2, e2, hf', h0, h1, h2, _⟩ := getVolumeStack_sub st rows cols am rq out hgv
+    rw [hfull] at hf'
+    cases hf'
+    rcases hbad with hb | hb | hb
+    · rw [hb] at h0; cases h0
+    · rw [hb] at h1; cases h1
+    · rw [hb] at h2; cases h2
+
+/-- default request: the volume an image returns has exactly the geometry it reports (stacked images) -/
+theorem getVolumeStack_default (st : Stack) (rows cols : Int) (hr : 1 ≤ rows) (hc : 1 ≤ cols) (am : Bool) (full : StackGeom)
+    (hfull : volumeGeometryStack st rows cols am = .ok full) :
+    getVolumeStack st rows cols am ({} : Request) = .ok { aff := full.aff, n := full.n, frames := full.frames, rowFirst := 0, colFirst := 0, rows := rows, cols := cols } := by
+  unfold volumeGeometryStack at hfull
+  unfold getVolumeStack
+  have hT3 : stdRowColIndices none none none none rows cols false true = .ok (0, rows, 0, cols) := by
+    simp only [stdRowColIndices]
+    grind
+  simp only [hT3, hfull]
+  rw [getitemAxis_inrange 0 rows rows (le_refl 0) (by omega) (le_refl rows),
+    getitemAxis_inrange 0 cols cols (le_refl 0) (by omega) (le_refl cols)]
+  simp [aff_shift_zero]
+
+
+/-! ## tiled images -/
+
+theorem stdRowCol_restandardise (a b c d rows cols : Int) (h : 0 ≤ a ∧ a < rows ∧ 0 ≤ b ∧ b ≤ rows ∧ 0 ≤ c ∧ c < cols ∧ 0 ≤ d ∧ d ≤ cols) :
+    stdRowColIndices (some a) (some b) (some c) (some d) rows cols true false = .ok (a + 1, b + 1, c + 1, d + 1) := by
+  rw [stdRowCol_ok_iff]
+  have e0 : outShift false = 0 := rfl
+  rw [e0]
+  unfold normStart normEnd
+  refine ⟨?_, ?_, ?_, ?_⟩ <;> grind
+
+/-- **Tiled branch of `get_volume`**: an accepted request returns the geometry of the total pixel matrix
+translated to the position of the first requested row and column (`a`, `c` = what the translated
+`_standardize_row_column_indices` makes of the request), with the requested extent. -/
+theorem tiledVolume_sub (origin rowCos colCos : V3) (psRow psCol : Rat) (sbs : Option Rat) (R C : Int) (rq : Request)
+    (out : VolOut) (h : tiledVolume origin rowCos colCos psRow psCol sbs R C rq = .ok out) :
+    ∃ full a b c d, volumeGeometryTiled origin rowCos colCos psRow psCol sbs = .ok full ∧
+      stdRowColIndices rq.rowStart rq.rowEnd rq.colStart rq.colEnd R C rq.asIdx true = .ok (a, b, c, d) ∧
+      sliceSpec rq.sliceStart rq.sliceEnd 1 rq.asIdx = some (0, 1) ∧
+      out.aff = full.shift 0 a c ∧ out.n = 1 ∧ out.rows = b - a ∧ out.cols = d - c ∧ a ≤ b ∧ c ≤ d ∧
+      out.rowFirst = a ∧ out.colFirst = c := by
+  unfold tiledVolume at h
+  unfold volumeGeometryTiled
+  cases hT3 : stdRowColIndices rq.rowStart rq.rowEnd rq.colStart rq.colEnd R C rq.asIdx true with
+  | error k => rw [hT3] at h; cases h
+  | ok r =>
+    obtain ⟨a, b, c, d⟩ := r
+    rw [hT3] at h
+    simp only at h
+    have hr := stdRowCol_range_idx hT3
+    cases hfa : fromAttributes origin rowCos colCos psRow psCol (defaultSpacing sbs) with
+    | error k => rw [hfa] at h; cases h
+    | ok A =>
+      rw [hfa] at h
+      simp only at h
+      cases hsl : stdSliceIndices rq.sliceStart rq.sliceEnd 1 rq.asIdx with
+      | error k => rw [hsl] at h; cases h
+      | ok se =>
+        rw [hsl] at h
+        simp only at h
+        rw [stdRowCol_restandardise a b c d R C hr] at h
+        simp only at h
+        have hspec := (stdSlice_ok_iff _ _ _ _ se).mp hsl
+        have hse : se = (0, 1) := by
+          obtain ⟨s, e⟩ := se
+          have := sliceSpec_range hspec
+          simp only [Prod.mk.injEq]; omega
+        split at h
+        · cases h
+        · rename_i hneg
+          simp only [Bool.or_eq_true, decide_eq_true_eq, not_or, not_lt] at hneg
+          rw [getitemAxis_from a R hr.1 hr.2.1, getitemAxis_from c C hr.2.2.2.2.1 hr.2.2.2.2.2.1] at h
+          simp only [Except.ok.injEq] at h
+          subst h
+          refine ⟨A, a, b, c, d, rfl, rfl, by rw [hspec, hse], rfl, rfl, by simp only; ring, by simp only; ring, by omega, by omega, rfl, rfl⟩
+
+/-- default request on a tiled image: the geometry it reports -/
+theorem tiledVolume_default (origin rowCos colCos : V3) (psRow psCol : Rat) (sbs : Option Rat) (R C : Int)
+    (hR : 1 ≤ R) (hC : 1 ≤ C) (full : Aff) (hfull : volumeGeometryTiled origin rowCos colCos psRow psCol sbs = .ok full) :
+    tiledVolume origin rowCos colCos psRow psCol sbs R C ({} : Request)
+      = .ok { aff := full, n := 1, frames := [], rowFirst := 0, colFirst := 0, rows := R, cols := C } := by
+  unfold volumeGeometryTiled at hfull
+  unfold tiledVolume
+  have hT3 : stdRowColIndices none none none none R C false true = .ok (0, R, 0, C) := by
+    simp only [stdRowColIndices]
+    grind
+  have hT2 : stdSliceIndices none none 1 false = .ok (0, 1) := by
+    rw [stdSlice_ok_iff]; exact sliceSpec_default 1 (le_refl 1) false
+  simp only [hT3, hfull, hT2]
+  rw [stdRowCol_restandardise 0 R 0 C R C (by omega)]
+  simp only
+  rw [getitemAxis_from 0 R (le_refl 0) (by omega), getitemAxis_from 0 C (le_refl 0) (by omega)]
+  simp only [aff_shift_zero]
+  have h1 : (decide (R + 1 - (0 + 1) < 0) || decide (C + 1 - (0 + 1) < 0)) = false := by
+    simp only [Bool.or_eq_false_iff, decide_eq_false_iff_not]; omega
+  rw [h1]
+  simp
+
+/-! ## pyramid -/
+
+/-- rows / columns of a total-pixel-matrix mask of rank 2 `(R, C)`, 3 `(1, R, C)` or 4 `(1, R, C, S)` -/
+def maskRows (ndim s0 s1 : Int) : Int := if ndim = 2 then s0 else s1
+def maskCols (ndim s1 s2 : Int) : Int := if ndim = 2 then s1 else s2
+
+theorem pyramidSpacing_extent (pr pc : Rat) (nd0 a0 a1 a2 nd b0 b1 b2 : Int) (rs cs : Rat)
+    (h : pyramidSpacing pr pc nd0 a0 a1 a2 nd b0 b1 b2 = .ok (rs, cs))
+    (hr : maskRows nd b0 b1 ≠ 0) (hc : maskCols nd b1 b2 ≠ 0) :
+    (maskRows nd b0 b1 : Rat) * rs = (maskRows nd0 a0 a1 : Rat) * pr ∧
+    (maskCols nd b1 b2 : Rat) * cs = (maskCols nd0 a1 a2 : Rat) * pc := by
+  unfold pyramidSpacing at h
+  simp only [Except.ok.injEq, Prod.mk.injEq] at h
+  obtain ⟨rfl, rfl⟩ := h
+  unfold maskRows maskCols at *
+  have e1 : ∀ (x y : Int), (if (nd == (2 : Int)) = true then x else y) = if nd = 2 then x else y := by
+    intro x y; by_cases h : nd = 2 <;> simp [h]
+  have e0 : ∀ (x y : Int), (if (nd0 == (2 : Int)) = true then x else y) = if nd0 = 2 then x else y := by
+    intro x y; by_cases h : nd0 = 2 <;> simp [h]
+  simp only [e1, e0]
+  have hr' : ((if nd = 2 then b0 else b1 : Int) : Rat) ≠ 0 := by exact_mod_cast hr
+  have hc' : ((if nd = 2 then b1 else b2 : Int) : Rat) ≠ 0 := by exact_mod_cast hc
+  constructor
+  · field_simp
+  · field_simp
+
+
+/-- size of a down-sampled level: `int(total / f)` is at least 1 (and at most the full size) for `1 ≤ f ≤ total` -/
+theorem pyramidLevelSize_pos (f : Rat) (hf : 1 ≤ f) (R C : Int) (hR : f ≤ (R : Rat)) (hC : f ≤ (C : Rat)) :
+    ∃ cl rl, pyramidLevelSize f C R = .ok (cl, rl) ∧ 1 ≤ cl ∧ cl ≤ C ∧ 1 ≤ rl ∧ rl ≤ R := by
+  have hf0 : 0 < f := by linarith
+  unfold pyramidLevelSize
+  have hc0 : ¬ ((C : Rat) / f < 0) := by
+    have : 0 ≤ (C : Rat) / f := div_nonneg (by linarith) (le_of_lt hf0)
+    linarith
+  have hr0 : ¬ ((R : Rat) / f < 0) := by
+    have : 0 ≤ (R : Rat) / f := div_nonneg (by linarith) (le_of_lt hf0)
+    linarith
+  refine ⟨_, _, rfl, ?_, ?_, ?_, ?_⟩
+  · simp only [if_neg hc0]
+    rw [Rat.le_floor_iff]; push_cast; rw [le_div_iff₀ hf0]; linarith
+  · simp only [if_neg hc0]
+    have : (C : Rat) / f ≤ C := by rw [div_le_iff₀ hf0]; nlinarith
+    have h2 : ((C : Rat) / f).floor < C + 1 := by
+      rw [Rat.floor_lt_iff]; push_cast; linarith
+    omega
+  · simp only [if_neg hr0]
+    rw [Rat.le_floor_iff]; push_cast; rw [le_div_iff₀ hf0]; linarith
+  · simp only [if_neg hr0]
+    have : (R : Rat) / f ≤ R := by rw [div_le_iff₀ hf0]; nlinarith
+    have h2 : ((R : Rat) / f).floor < R + 1 := by
+      rw [Rat.floor_lt_iff]; push_cast; linarith
+    omega
+
+
+theorem linePos_store {g : Geom} (hg : Admissible g) (e : Int) :
+    linePos (normal g.d2 g.d1) g.p g.s0 e = g.aff.apply (handInt g * e) 0 0 := by
+  rw [normal_store hg]
+  have h2 := det_sq hg
+  have hc := handInt_cast hg
+  unfold linePos Geom.aff Aff.apply
+  push_cast
+  rw [hc]
+  generalize g.det = δ at *
+  generalize g.s0 = s at *
+  obtain ⟨dx, dy, dz⟩ := g.d0
+  obtain ⟨px, py, pz⟩ := g.p
+  simp only [add, smul, V3.mk.injEq, zero_mul, add_zero]
+  refine ⟨by ring, by ring, by ring⟩
+
+theorem geom_apply_split (g : Geom) (i r c : Int) :
+    g.aff.apply i r c = add (add (g.aff.apply i 0 0) (smul ((r : Rat) * g.s1) g.d1)) (smul ((c : Rat) * g.s2) g.d2) := by
+  unfold Geom.aff Aff.apply
+  obtain ⟨ax, ay, az⟩ := g.d0
+  obtain ⟨bx, b_y, bz⟩ := g.d1
+  obtain ⟨cx, cy, cz⟩ := g.d2
+  obtain ⟨px, py, pz⟩ := g.p
+  simp only [add, smul, V3.mk.injEq]
+  push_cast
+  refine ⟨by ring, by ring, by ring⟩
+
+/-- the affine read back, at any slot `v`: the input volume's position of plane `h·(emin + v)` -/
+theorem lineAff_store_apply_int {g : Geom} (hg : Admissible g) (ks : List Nat) (emin v r c : Int) :
+    (lineAff (storeStack g ks) g.p g.s0 emin).apply v r c = g.aff.apply (handInt g * (emin + v)) r c := by
+  rw [lineAff_apply, geom_apply_split g (handInt g * (emin + v)) r c, ← linePos_store hg]
+  rfl
+
+
+/-- an affine is determined by where it sends the index triples -/
+theorem aff_ext_of_apply (a b : Aff) (h : ∀ v r c : Int, a.apply v r c = b.apply v r c) : a = b := by
+  have e0 := h 0 0 0
+  have e1 := h 1 0 0
+  have e2 := h 0 1 0
+  have e3 := h 0 0 1
+  obtain ⟨⟨a0x, a0y, a0z⟩, ⟨a1x, a1y, a1z⟩, ⟨a2x, a2y, a2z⟩, ⟨atx, aty, atz⟩⟩ := a
+  obtain ⟨⟨b0x, b0y, b0z⟩, ⟨b1x, b1y, b1z⟩, ⟨b2x, b2y, b2z⟩, ⟨btx, bty, btz⟩⟩ := b
+  simp only [Aff.apply, add, smul, V3.mk.injEq, Aff.mk.injEq] at *
+  norm_num at e0 e1 e2 e3
+  obtain ⟨e0x, e0y, e0z⟩ := e0
+  obtain ⟨e1x, e1y, e1z⟩ := e1
+  obtain ⟨e2x, e2y, e2z⟩ := e2
+  obtain ⟨e3x, e3y, e3z⟩ := e3
+  refine ⟨⟨by linarith, by linarith, by linarith⟩, ⟨by linarith, by linarith, by linarith⟩,
+    ⟨by linarith, by linarith, by linarith⟩, ⟨e0x, e0y, e0z⟩⟩
+
+
 end HdVerif.SegGeomLemmas
